@@ -495,22 +495,35 @@ fn main() {
     let need = |k: &str| -> String { kv.get(k).cloned().unwrap_or_else(|| die("usage", &format!("missing --{}", k))) };
     let mut srcs = Sources { repo: PathBuf::from(need("repo")), exp: PathBuf::from(need("exp")), cache: BTreeMap::new() };
     // includes: `//@ include FILE` relative to the including file's dir (recursive)
-    fn expand(path: &std::path::Path, lines: &mut Vec<String>, depth: usize) {
+    // `//@ include FILE [K=V ...]`: `$K` in the included text is replaced by V
+    fn expand(path: &std::path::Path, lines: &mut Vec<String>, depth: usize, subst: &[(String, String)]) {
         if depth > 8 {
             die("template", "include depth");
         }
         let t = std::fs::read_to_string(path).unwrap_or_else(|e| die("template", &format!("{}: {}", path.display(), e)));
         let dir = path.parent().unwrap().to_path_buf();
-        for l in t.lines() {
+        for l0 in t.lines() {
+            let mut l = l0.to_string();
+            for (k, v) in subst {
+                l = l.replace(&format!("${}", k), v);
+            }
             if let Some(inc) = l.trim().strip_prefix("//@ include ") {
-                expand(&dir.join(inc.trim()), lines, depth + 1);
+                let mut it = inc.split_whitespace();
+                let f = it.next().unwrap_or("");
+                let mut sub: Vec<(String, String)> = subst.to_vec();
+                for kv in it {
+                    if let Some((k, v)) = kv.split_once('=') {
+                        sub.push((k.to_string(), v.replace('~', " ")));
+                    }
+                }
+                expand(&dir.join(f), lines, depth + 1, &sub);
             } else {
-                lines.push(l.to_string());
+                lines.push(l);
             }
         }
     }
     let mut lines: Vec<String> = Vec::new();
-    expand(&PathBuf::from(need("template")), &mut lines, 0);
+    expand(&PathBuf::from(need("template")), &mut lines, 0, &[]);
     let mut out = Out { text: String::new(), line: 0, regions: Vec::new() };
     let mut stats = norm::Stats::default();
     let mut cur_fn: Option<(FnDirective, usize)> = None;
@@ -600,6 +613,64 @@ fn main() {
                     if out.line >= start {
                         out.regions.push(Region { start, end: out.line, kind: "tpl".into(), item: String::new(), clause: id0, props: props0 });
                     }
+                }
+                continue;
+            }
+            if let Some(rest) = dir.strip_prefix("assert-no-fn ") {
+                // the impl must NOT define this method (it inherits the trait's default body)
+                let parts: Vec<&str> = rest.split('|').map(|s| s.trim()).collect();
+                if parts.len() < 3 {
+                    die("template", &format!("bad assert-no-fn directive: {}", raw));
+                }
+                let opts = parse_opts(&parts[3..]);
+                let file = srcs.get(parts[0]);
+                let modpath: Vec<&str> = match opts.get("mod") { Some(m) => m.split("::").collect(), None => vec![] };
+                let items = items_in(&file.items, &modpath).unwrap_or_else(|| die("lost-anchor", &format!("module not found: {}", raw)));
+                let want = squash(parts[1].strip_prefix("impl ").unwrap_or(parts[1]));
+                let mut seen_impl = false;
+                for it in items {
+                    if let syn::Item::Impl(im) = it {
+                        if impl_header(im) == want {
+                            seen_impl = true;
+                            for ii in &im.items {
+                                if let syn::ImplItem::Fn(f) = ii {
+                                    if f.sig.ident == parts[2] {
+                                        die("lost-anchor", &format!("{} now overrides `{}` (was inherited from the trait default)", parts[1], parts[2]));
+                                    }
+                                }
+                            }
+                        }
+                    }
+                }
+                if !seen_impl {
+                    die("lost-anchor", &format!("impl not found: {}", raw));
+                }
+                continue;
+            }
+            if let Some(rest) = dir.strip_prefix("items ") {
+                // `//@ items SRC | structs|enums [mod=..] [except=A,B] [derive=..]`: every item of that kind, in source order
+                let parts: Vec<&str> = rest.split('|').map(|s| s.trim()).collect();
+                if parts.len() < 2 {
+                    die("template", &format!("bad items directive: {}", raw));
+                }
+                let opts = parse_opts(&parts[1..]);
+                let kind = if opts.contains_key("structs") { "struct" } else if opts.contains_key("enums") { "enum" } else { die("template", "items: structs|enums") };
+                let except: Vec<String> = opts.get("except").map(|e| e.split(',').map(|x| x.to_string()).collect()).unwrap_or_default();
+                let names: Vec<String> = {
+                    let file = srcs.get(parts[0]);
+                    let modpath: Vec<&str> = match opts.get("mod") { Some(m) => m.split("::").collect(), None => vec![] };
+                    let items = items_in(&file.items, &modpath).unwrap_or_else(|| die("lost-anchor", &format!("module not found: {}", raw)));
+                    items.iter().filter_map(|it| match (kind, it) {
+                        ("struct", syn::Item::Struct(s)) => Some(s.ident.to_string()),
+                        ("enum", syn::Item::Enum(s)) => Some(s.ident.to_string()),
+                        _ => None,
+                    }).filter(|n| !except.contains(n)).collect()
+                };
+                if names.is_empty() {
+                    die("lost-anchor", &format!("no items for: {}", raw));
+                }
+                for n in names {
+                    emit_item(parts[0], &format!("{} {}", kind, n), &opts, &mut srcs, &mut out, &mut stats, indent);
                 }
                 continue;
             }
